@@ -153,9 +153,11 @@ package keeper
 //@   pure_fn
 //@   ensures result == valWaiting[bytes(valAddr)]
 
+//@ pure nDenom(c Iface) Str
 //@ func (Keeper).StakeDenom
-//@   trusted parameter getter
+//@   trusted parameter getter: the stake denomination is a function of the context's state
 //@   pure_fn
+//@   ensures res == nDenom(ctx)
 
 //@ func (Keeper).ValidateEditStake
 //@   props C23,C12
@@ -308,6 +310,7 @@ package keeper
 //@   props C24,C12
 //@   modifies nothing
 //@   ensures [unstaking] result == nil ==> validator.Status == 1
+//@   ensures [due-entry-not-refused] validator.Status == 1 && (!validator.Jailed || featAt("NCUST", ctxHeight(ctx)) || tm3()) ==> result == nil
 //@   ensures [jailed-only-after-upgrade] result == nil && validator.Jailed ==> featAt("NCUST", ctxHeight(ctx)) || tm3()
 
 //@ func (Keeper).deleteUnstakingValidator
@@ -363,7 +366,7 @@ package keeper
 //@ func (Keeper).SendCoins
 //@   props C18
 //@   modifies bankXferN, bankXferOK, bankXferFrom, bankXferTo, bankXferCoins
-//@   ensures [one-transfer] bankXferN == old(bankXferN) + 1 && bankXferFrom == bytes(fromAddress) && bankXferTo == bytes(toAddress) && singleAmt(bankXferCoins) == old(bigv[amount.i]) && old(bigv[amount.i]) >= 0
+//@   ensures [one-transfer] bankXferN == old(bankXferN) + 1 && bankXferFrom == bytes(fromAddress) && bankXferTo == bytes(toAddress) && singleAmt(bankXferCoins) == old(bigv[amount.i]) && old(bigv[amount.i]) >= 0 && singleDenom(bankXferCoins) == nDenom(ctx)
 //@   ensures [outcome] (result == nil) == bankXferOK
 
 // ---- C26: rewards and fees are split without creating or losing coins --------------------------
